@@ -109,6 +109,51 @@ EXTENSIONS = [
     {"ext": "add-input-field", "type": "Filter", "field": {"name": "more_in", "type": "Int", "default": 5}},
     {"ext": "add-type", "kind": "object"},
     {"ext": "add-interface-field", "type": "Node", "field": {"name": "extra_i", "type": "Int"}},
+] + [
+    # members whose types are EXISTING non-built-in types (enum / input object / object / interface / union /
+    # scalar), bare and wrapped, added to an interface and its implementers, an object, an input object;
+    # every reference must end up pointing at the object registered in the extended schema
+    {
+        "ext": "members",
+        "tag": tag,
+        "adds": adds,
+    }
+    for tag, adds in [
+        (
+            "interface-field:enum",
+            [[t, {"name": "ext_kind", "type": "Kind", "args": [{"name": "k", "type": "Kind", "default": "A"}]}] for t in ("Node", "Query", "Obj")],
+        ),
+        (
+            "interface-field:wrapped-object+input-args",
+            [
+                [t, {"name": "ext_objs", "type": "[Obj!]!", "args": [{"name": "flt", "type": "Filter"}, {"name": "ks", "type": "[Kind!]!"}]}]
+                for t in ("Node", "Query", "Obj")
+            ],
+        ),
+        (
+            "interface-field:interface+union",
+            [[t, {"name": "ext_node", "type": "Node", "args": []}] for t in ("Node", "Query", "Obj")]
+            + [[t, {"name": "ext_nodes", "type": "[Node!]!", "args": []}] for t in ("Node", "Query", "Obj")]
+            + [[t, {"name": "ext_any", "type": "[Any]", "args": [{"name": "st", "type": "Stamp"}]}] for t in ("Node", "Query", "Obj")],
+        ),
+        (
+            "object-field:wrapped",
+            [["Obj", {"name": "ext_hidden", "type": "[Hide!]!", "args": [{"name": "flts", "type": "[Filter!]!"}, {"name": "hi", "type": "HideIn"}]}]],
+        ),
+        (
+            "input-field:input+enum",
+            [
+                ["Filter", {"name": "ext_in", "type": "HideIn"}],
+                ["Filter", {"name": "ext_ins", "type": "[HideIn!]"}],
+                ["Filter", {"name": "ext_ks", "type": "[Kind!]!", "default": ["A"]}],
+                ["HideIn", {"name": "ext_stamp", "type": "Stamp"}],
+            ],
+        ),
+        (
+            "implements-existing+union-member",
+            [["Hide", "implements", "Node"], ["Any", "member", "Sub"], ["Kind", "value", "D"]],
+        ),
+    ]
 ]
 
 
@@ -132,6 +177,34 @@ def extension_sdl(e):
         f = e["field"]
         return "extend interface %s { %s: %s }\nextend type Query { %s: %s }\nextend type Obj { %s: %s }" % (
             e["type"], f["name"], f["type"], f["name"], f["type"], f["name"], f["type"])
+    if k == "members":
+        sm = source("sdl")
+        parts = []
+        for add in e["adds"]:
+            tn = add[0]
+            kind = M.kind_of(sm, tn)
+            if len(add) == 3:
+                if add[1] == "implements":
+                    parts.append("extend type %s implements %s { id: ID!  peer_node(first_n: Int = 1): Node }" % (tn, add[2]))
+                elif add[1] == "member":
+                    parts.append("extend union %s = %s" % (tn, add[2]))
+                else:
+                    parts.append("extend enum %s { %s }" % (tn, add[2]))
+                continue
+            f = add[1]
+            if kind == "input":
+                text = "%s: %s" % (f["name"], f["type"])
+                if "default" in f:
+                    text += " = " + M.sdl_value(sm, f["type"], f["default"])
+                parts.append("extend input %s { %s }" % (tn, text))
+            else:
+                args = ""
+                if f.get("args"):
+                    args = "(" + ", ".join(
+                        "%s: %s%s" % (a["name"], a["type"], (" = " + M.sdl_value(sm, a["type"], a["default"])) if "default" in a else "") for a in f["args"]
+                    ) + ")"
+                parts.append("extend %s %s { %s%s: %s }" % ("interface" if kind == "interface" else "type", tn, f["name"], args, f["type"]))
+        return "\n".join(parts)
     raise ValueError(k)
 
 
@@ -179,7 +252,7 @@ def op_kind(op):
         what = "+".join(x for x in ("types", "fields", "input_fields", "directives") if op.get(x))
         return "%s:%s" % (k, what)
     if k == "extend":
-        return "extend:" + op["ext"]
+        return "extend:" + op["ext"] + (":" + op["tag"] if op.get("tag") else "")
     return k
 
 
